@@ -11,7 +11,7 @@ import sys
 
 sys.path.insert(0, os.path.join(os.path.dirname(os.path.abspath(__file__)), "..", "_shared", "mcref"))
 import mclib  # noqa: E402
-from vlib.core import SplitMix  # noqa: E402
+from vlib.core import SplitMix, InfraError  # noqa: E402
 
 VERB = ["--log=mc_dfs.thres:verbose"]
 
@@ -281,6 +281,11 @@ def run(ctx):
     dist = {}
     for i, p in enumerate(sel):
         ro, rn, rd = results[(i, "odpor")], results.get((i, "none")), results.get((i, "dbg"))
+        for r in (ro, rn):
+            # the dynamic loader could not even start the checker (libsimgrid.so being relinked by a concurrent build of
+            # the shared cache): says nothing about the property
+            if r and r["rc"] == 127 and "error while loading shared libraries" in r["text"]:
+                raise InfraError("simgrid-mc could not be loaded (twice): " + r["text"].strip()[-200:])
         if ro["timeout"] or (rn and rn["timeout"]):
             skipped += 1
             continue
